@@ -7,7 +7,9 @@ import (
 	"time"
 
 	appsv1 "k8s.io/api/apps/v1"
+	autoscalingv1 "k8s.io/api/autoscaling/v1"
 	corev1 "k8s.io/api/core/v1"
+	"k8s.io/apimachinery/pkg/api/resource"
 	metav1 "k8s.io/apimachinery/pkg/apis/meta/v1"
 	"k8s.io/apimachinery/pkg/types"
 	"pgregory.net/rapid"
@@ -491,6 +493,53 @@ func (w *World) do(kind string) {
 				x.Labels[k] = v
 			}
 		})
+	case "node-annotate":
+		// a resources override annotation on a node: for this EDS, for another one, malformed, or removed
+		if n := w.pickNode(); n != nil {
+			e := w.pickEDS()
+			kind := rapid.SampledFrom([]string{"own", "own", "other", "malformed", "remove"}).Draw(w.rt, "nodeAnnKind")
+			key := fmt.Sprintf("resources.extendeddaemonset.datadoghq.com/%s.%s.agent", e.Namespace, e.Name)
+			val := rapid.SampledFrom([]string{`{"requests":{"cpu":"150m"}}`, `{"requests":{"cpu":"250m"},"limits":{"memory":"256Mi"}}`}).Draw(w.rt, "nodeAnnVal")
+			switch kind {
+			case "other":
+				key = "resources.extendeddaemonset.datadoghq.com/elsewhere.other.agent"
+			case "malformed":
+				val = "{not json"
+			}
+			w.NodeChurn++
+			w.C.Tracef("node annotate %s %s %s", n.Name, kind, key)
+			w.C.MutateNode(n.Name, func(x *corev1.Node) {
+				if x.Annotations == nil {
+					x.Annotations = map[string]string{}
+				}
+				if kind == "remove" {
+					delete(x.Annotations, key)
+				} else {
+					x.Annotations[key] = val
+				}
+			})
+		}
+	case "setting-toggle":
+		// an ExtendedDaemonsetSetting for the first EDS appears, changes or disappears
+		e := w.EDS[0]
+		name := rapid.SampledFrom([]string{"set-a", "set-b"}).Draw(w.rt, "settingName")
+		if cur := w.C.Setting(e.Namespace, name); cur != nil && rapid.Bool().Draw(w.rt, "settingRemove") {
+			w.C.Tracef("setting %s/%s deleted", e.Namespace, name)
+			w.C.DeleteSetting(e.Namespace, name)
+		} else {
+			sel := rapid.SampledFrom([]string{"zone=a", "zone=b", "tier=a", "all"}).Draw(w.rt, "settingSel")
+			cpu := rapid.SampledFrom([]string{"111m", "222m"}).Draw(w.rt, "settingCPU")
+			w.C.Tracef("setting %s/%s := selector %s cpu %s", e.Namespace, name, sel, cpu)
+			obj := &edsv1.ExtendedDaemonsetSetting{ObjectMeta: metav1.ObjectMeta{Namespace: e.Namespace, Name: name},
+				Spec: edsv1.ExtendedDaemonsetSettingSpec{Reference: &autoscalingv1.CrossVersionObjectReference{Kind: "ExtendedDaemonset", Name: e.Name}, NodeSelector: c18Selector(sel),
+					Containers: []edsv1.ExtendedDaemonsetSettingContainerSpec{{Name: "agent", Resources: corev1.ResourceRequirements{Requests: corev1.ResourceList{corev1.ResourceCPU: resource.MustParse(cpu)}}}}}}
+			if cur != nil {
+				w.C.MutateSetting(e.Namespace, name, func(x *edsv1.ExtendedDaemonsetSetting) { x.Spec = obj.Spec })
+			} else {
+				w.C.Add(obj)
+			}
+		}
+		w.NodeChurn++
 	case "canary-valid":
 		e := w.pickEDS()
 		if x := w.C.EDS(e.Namespace, e.Name); x != nil && x.Status.Canary != nil {
